@@ -15,3 +15,29 @@ Print Assumptions C05_teardown_safe_iff_declaration_order.
 Example C05_teardown_order_matters :
   teardown [FOther; FAllocOwned; FQHandles; FOther] 1 = UseAfterFree /\ (forall n, teardown [FOther; FQHandles; FAllocOwned; FOther] n = Safe).
 Proof. split; [reflexivity|]. apply teardown_safe_iff. reflexivity. Qed.
+
+(* ---- ownership: the payload life-cycle machine (Alloc/Lifecycle.v, in lock-step with nine channel kinds and a destructor-counting
+   payload). `owners s id` = queued copies of payload id + handles to it held by consumers. For EVERY history of send / receive /
+   clone / drop (on any thread) / teardown, any number of listeners, both teardown disciplines: *)
+From RM Require Import Lifecycle LifecycleProps.
+
+Theorem C05_destroyed_at_most_once :
+  forall drains clones k ops id, drops (fold_left (lstep drains clones) ops (linit k)) id <= 1.
+Proof. exact destroyed_at_most_once. Qed.
+Print Assumptions C05_destroyed_at_most_once.
+
+Theorem C05_not_destroyed_while_queued_or_held :
+  forall drains clones k ops id, let s := fold_left (lstep drains clones) ops (linit k) in 0 < owners s id -> drops s id = 0.
+Proof. exact not_destroyed_while_owned. Qed.
+Print Assumptions C05_not_destroyed_while_queued_or_held.
+
+Theorem C05_destroyed_as_soon_as_last_owner_lets_go :
+  forall drains clones k ops id, let s := fold_left (lstep drains clones) ops (linit k) in
+    is_sent s id = true -> owners s id = 0 -> drops s id = 1.
+Proof. exact destroyed_as_soon_as_released. Qed.
+Print Assumptions C05_destroyed_as_soon_as_last_owner_lets_go.
+
+Example C05_life_nonvacuous :
+  let s := fold_left (lstep true true) [LSend 0; LSend 1; LRecv 0 3; LClone 3 4; LRecv 1 5; LDrop 3; LDrop 5; LTeardown] (linit 2) in
+  (drops s 0, drops s 1, owners s 0, owners s 1) = (0, 1, 1, 0).
+Proof. vm_compute. reflexivity. Qed.
